@@ -10,6 +10,26 @@ BASELINE_OFF = ("cd /repo && env -u STRENGTHS_VERIF /venv/bin/python -m pytest -
 
 # pid -> (technique, level text, level note, design ref)
 CLAIMED = {
+    "C01": (
+        "Coq proof that the engine's derivative (flat tables, neighbour table / edge slots) equals the mass-action + Bernstein law, for all sizes; correspondence on random systems incl. the freshly compiled Euler engine",
+        "Theorems (Props/C01.v, closed under the global context; any number of species, reactions, environments, cells; any orders; "
+        "every grid w,h,d >= 1 with all boundary mixes; every graph): k[env,r]*V^(1-order)*prod x^sub = k*V*prod (x/V)^sub; the "
+        "six-direction grid form and the per-edge-slot graph form of out-minus-in diffusion equal minus the sum over neighbours of "
+        "Dint*surface/distance*(x_j/V_j - x_i/V_i) with Dint the size-weighted harmonic mean (zero if either coefficient is zero) - "
+        "this uses the neighbour-table involution of C15; hence the engine's Compute_dxdt is the rate law on every unflagged entry "
+        "and one Euler step is x + dt*law; the import/export transpositions are mutually inverse. The model of engine.cpp / "
+        "SimulationAlgorithm*Base.hpp / Euler*.hpp and of librdengine.py's table builders and unit conversions is tied to the code on "
+        "every run: random systems (orders 0..4, empty sides, repeated species, per-environment constants with 'default' and zeros, "
+        "grids with periodic axes of length 1 and 2, graphs with heterogeneous cubic volumes and per-node/edge units, random engine "
+        "units) through the four public build_*_matrix functions, kinetics.compute_dstatedt (value, units, dimension amount/time), "
+        "make_dxdtf, and samples 0 and 1 of the Euler engine recompiled from the working tree; verdict in Coq with a tolerance "
+        "relative to the magnitude of the summed terms.",
+        "Trusted: Coq kernel + VM; the hand-written engine and table-builder models (tied by sampled correspondence: 220 systems quick, "
+        "4000 thorough); the Python kinetics functions are tied to the same law by correspondence only (their unit-carrying "
+        "intermediate algebra is the object of C05/C04 theorems, not re-proved here); cube roots are designed out (cell edges are "
+        "generated, volumes are their exact cubes, consistency re-checked in Coq); binary64 vs exact rationals at 1e-9 x magnitude; "
+        "g++ -O2 build of the engine; the Python harness.",
+        "DESIGN.md section 6 / C01"),
     "C05": (
         "Coq proof that the operator model is a homomorphism into SI arithmetic (induction over expression trees) + dispatch-path correspondence",
         "Theorems (Props/C05.v, closed under the global context): for every expression tree over numbers, quantities and arrays with "
